@@ -644,8 +644,9 @@ impl TInputProtocol for TBinaryProtocol<&mut Bytes> {
     #[inline]
     fn read_bytes(&mut self) -> Result<Bytes, ThriftException> {
         let len = self.trans.read_i32()?;
+        let len = super::check_wire_len(len as i64, self.trans.len())?;
         // split and freeze it
-        Ok(self.trans.split_to(len as usize))
+        Ok(self.trans.split_to(len))
     }
 
     #[inline]
@@ -655,6 +656,7 @@ impl TInputProtocol for TBinaryProtocol<&mut Bytes> {
                 std::slice::from_raw_parts(ptr, len)
             }))
         } else {
+            let len = super::check_wire_len(len as i64, self.trans.len())?;
             Ok(self.trans.split_to(len))
         }
     }
@@ -699,7 +701,8 @@ impl TInputProtocol for TBinaryProtocol<&mut Bytes> {
 
     #[inline]
     fn read_faststr(&mut self) -> Result<FastStr, ThriftException> {
-        let len = self.trans.read_i32()? as usize;
+        let len = self.trans.read_i32()?;
+        let len = super::check_wire_len(len as i64, self.trans.len())?;
         let bytes = self.trans.split_to(len);
         unsafe { Ok(FastStr::from_bytes_unchecked(bytes)) }
     }
@@ -748,7 +751,8 @@ impl TInputProtocol for TBinaryProtocol<&mut Bytes> {
 
     #[inline]
     fn read_bytes_vec(&mut self) -> Result<Vec<u8>, ThriftException> {
-        let len = self.trans.read_i32()? as usize;
+        let len = self.trans.read_i32()?;
+        let len = super::check_wire_len(len as i64, self.trans.len())?;
         Ok(self.trans.split_to(len).into())
     }
 
